@@ -28,7 +28,14 @@ RULE = ("source = C12 skeleton (text runs over space/tab/LF/CRLF/CR/letters alte
         "lines (multi-line expressions, strings, comments, raw bodies), built with one of 4 "
         "delimiter sets, lexed under all 4 trim_blocks/lstrip_blocks settings (and "
         "keep_trailing_newline on/off); plus line-statement/line-comment sources without "
-        "modifiers. Exhaustive: all tag sequences of <=2 tags x modifiers x settings over fixed "
+        "modifiers (there, additionally, no data token may contain the '#' of a line statement / "
+        "line comment: the generated text lines have none). Overlays: a fresh base environment "
+        "with random lexer options, optionally used first (lex / from_string / parse), then "
+        "base.overlay(<only the options that differ>) [optionally a second overlay on top]; "
+        "every environment of the chain lexes a source written for ITS OWN delimiters and is "
+        "checked against the model run with ITS OWN trim_blocks/lstrip_blocks/"
+        "keep_trailing_newline/line prefixes, the base again after the overlay exists. "
+        "Exhaustive: all tag sequences of <=2 tags x modifiers x settings over fixed "
         "run sets; then random 1-8 tag sources. One evaluation = one env.lex call checked for "
         "losslessness, data-token content and the line of every token. distinct = distinct "
         "(delimiter set, settings, left/right neighbour kind+modifier, run class, number of "
@@ -43,7 +50,10 @@ ASSUMPTIONS = [
     "stay attached to a non-data token; only data tokens are required to be free of it",
     "token values are compared after normalising their line breaks to LF",
     "empty tokens have no start character, so their line number is not checked",
-    "line statements: only losslessness and line numbers are checked (no trimming prediction)",
+    "line statements: only losslessness, line numbers and 'no # in data tokens' are checked (no "
+    "trimming prediction)",
+    "an overlay's own options are the ones handed to overlay() plus, for everything not handed "
+    "in, those of the environment it was made from (docs/api.rst Environment.overlay)",
 ]
 NSHARDS = {"quick": 16, "thorough": 16}
 BUDGET_S = {"quick": 15, "thorough": 420}
@@ -54,14 +64,20 @@ FLOORS = {
                            "tokens_after_stripped_newline": 300000,
                            "tokens_in_multiline_tag": 30000,
                            "cases_exhaustive": 35000, "cases_random": 7000,
-                           "cases_custom_delims": 3000, "cases_linestmt": 2000}},
+                           "cases_custom_delims": 3000, "cases_linestmt": 2000,
+                           "overlay_lex_checks": 1500, "overlay_after_base_used": 500,
+                           "overlay_before_base_used": 200, "overlay_base_rechecks": 700,
+                           "overlay_linestmt_checks": 100}},
     "thorough": {"evaluations": 700000, "distinct": 20000,
                  "counters": {"lex_calls": 700000, "tokens_line_checked": 15000000,
                               "oracle_lossless": 700000, "oracle_data": 680000,
                               "tokens_after_stripped_newline": 6000000,
                               "tokens_in_multiline_tag": 3000000,
                               "cases_exhaustive": 220000, "cases_random": 450000,
-                              "cases_custom_delims": 250000, "cases_linestmt": 60000}},
+                              "cases_custom_delims": 250000, "cases_linestmt": 60000,
+                              "overlay_lex_checks": 15000, "overlay_after_base_used": 5000,
+                              "overlay_before_base_used": 2000, "overlay_base_rechecks": 7000,
+                              "overlay_linestmt_checks": 1000}},
 }
 
 SETTINGS = [(False, False), (False, True), (True, False), (True, True)]
@@ -232,31 +248,38 @@ def check_tokens(st, p, toks, case, dname, tb, ls, optional_spans=None, check_da
     return ok
 
 
-def check_case(st, skel, dname, tb, ls, keep=False, part="random"):
+def check_case(st, skel, dname, tb, ls, keep=False, part="random", env=None, label=None,
+               extra=None):
+    """`env`/`label`: lex through this environment (an overlay chain member built by
+    the caller with exactly these options) instead of a plain one; `label` then
+    replaces the delimiter-set name in keys."""
     ctx = st.ctx
     d = G.DELIMS[dname]
     p = M.predict(skel, tb, ls, keep, "\n", d)
     case = {"kind": "skel", "skel": skel, "delims": dname, "tb": tb, "ls": ls, "keep": keep,
             "source": p.source}
+    if extra:
+        case.update(extra)
+    label = label or dname
     ctx.ev()
     ctx.count("lex_calls")
     try:
-        toks = list(st.env(dname, tb, ls, keep).lex(p.source))
+        toks = list((env or st.env(dname, tb, ls, keep)).lex(p.source))
     except Exception as e:
-        st.record(f"lex-raises:{dname}:{type(e).__name__}",
+        st.record(f"lex-raises:{label}:{type(e).__name__}",
                   f"{type(e).__name__}: {e} for source {p.source!r}", case)
         return False
     # gap coverage
     for g in p.gaps:
         if g["rl"] or g["rr"]:
-            k = ("gap", dname, tb, ls, g["A"], g["B"], M.run_class(g["run"], g["A"] is None),
+            k = ("gap", label, tb, ls, g["A"], g["B"], M.run_class(g["run"], g["A"] is None),
                  min(g["run"].count("\n") - g["kept"].count("\n"), 3))
             if k not in st.seen:
                 st.seen.add(k)
                 ctx.dist(k)
     if dname != "default":
         ctx.count("cases_custom_delims")
-    return check_tokens(st, p, toks, case, dname, tb, ls)
+    return check_tokens(st, p, toks, case, label, tb, ls)
 
 
 # ----------------------------------------------------------- line statements
@@ -287,19 +310,21 @@ def linestmt_source(rng):
     return src
 
 
-def check_linestmt(st, src, keep):
+def check_linestmt(st, src, keep, env=None, label="linestmt", extra=None):
     ctx = st.ctx
     ctx.ev()
     ctx.count("lex_calls")
     ctx.count("cases_linestmt")
     case = {"kind": "linestmt", "source": src, "keep": keep}
+    if extra:
+        case.update(extra)
     norm = M.norm_nl(src)
     if not keep and norm.endswith("\n"):
         norm = norm[:-1]
     try:
-        toks = list(st.env("default", False, False, keep, line=True).lex(src))
+        toks = list((env or st.env("default", False, False, keep, line=True)).lex(src))
     except Exception as e:
-        st.record(f"lex-raises:linestmt:{type(e).__name__}",
+        st.record(f"lex-raises:{label}:{type(e).__name__}",
                   f"{type(e).__name__}: {e} for source {src!r}", case)
         return False
     # "they strip leading whitespace automatically up to the beginning of the line": the
@@ -318,8 +343,118 @@ def check_linestmt(st, src, keep):
             if k < j and (off + k, off + j) not in spans and k > 0:
                 spans.append((off + k, off + j))
         off += len(line) + 1
-    return check_tokens(st, {"norm": norm}, toks, case, "linestmt", False, False,
-                        optional_spans=sorted(spans), check_data=False)
+    ok = check_tokens(st, {"norm": norm}, toks, case, label, False, False,
+                      optional_spans=sorted(spans), check_data=False)
+    # the generated text lines contain no '#': every '#' of the source belongs to a line
+    # statement, a line comment or a {# #} comment, none of which is template data
+    ctx.count("oracle_linestmt_data")
+    bad = [t for t in toks if t[1] == "data" and "#" in t[2]]
+    if bad:
+        ok = False
+        st.record(f"linestmt-in-data:{label}",
+                  f"source {src!r} lexed with line_statement_prefix='#', line_comment_prefix='##': "
+                  f"data token {bad[0]!r} carries a line statement / line comment", case)
+    return ok
+
+
+# ------------------------------------------------------------------ overlays
+def _opts_kw(o):
+    d = G.DELIMS[o["dname"]]
+    return {"block_start_string": d["bs"], "block_end_string": d["be"],
+            "variable_start_string": d["vs"], "variable_end_string": d["ve"],
+            "comment_start_string": d["cs"], "comment_end_string": d["ce"],
+            "trim_blocks": o["tb"], "lstrip_blocks": o["ls"], "keep_trailing_newline": o["keep"],
+            "line_statement_prefix": "#" if o["line"] else None,
+            "line_comment_prefix": "##" if o["line"] else None}
+
+
+def _rand_opts(rng, base=None):
+    """Lexer options; with `base`, options differing from it in >= 1 dimension."""
+    while True:
+        o = {"dname": rng.choice(("default", "default", "angle", "html", "square")),
+             "tb": rng.random() < 0.5, "ls": rng.random() < 0.5, "keep": rng.random() < 0.4,
+             "line": False}
+        if base is not None:
+            # change a few dimensions only, keep the rest inherited
+            o2 = dict(base)
+            for k in rng.sample(("dname", "tb", "ls", "keep"), rng.choice((1, 1, 2, 3))):
+                o2[k] = o[k] if k == "dname" else (not base[k])
+            if rng.random() < 0.12 and o2["dname"] == "default":
+                o2["line"] = not base["line"]
+            o = o2
+        elif rng.random() < 0.1 and o["dname"] == "default":
+            o["line"] = True
+        if o["line"]:
+            # the line-statement sources are written in the default delimiters and their
+            # oracle has no trimming prediction
+            if o["dname"] != "default":
+                o["line"] = False
+            else:
+                o["tb"] = o["ls"] = False
+        if o == base:
+            continue
+        return o
+
+
+def gen_overlay_case(rng):
+    base = _rand_opts(rng)
+    chain = [base, _rand_opts(rng, base)]
+    if rng.random() < 0.25:
+        chain.append(_rand_opts(rng, chain[-1]))
+    srcs = []
+    for o in chain:
+        if o["line"]:
+            srcs.append({"linestmt": linestmt_source(rng)})
+        else:
+            nt = rng.choice((1, 2, 3, 4, 5))
+            srcs.append({"skel": G.random_skeleton(rng, nt, lex=True, delims=o["dname"])})
+    return {"kind": "overlay", "chain": chain, "srcs": srcs,
+            "use": rng.choice(("no", "lex", "from_string", "parse", "lex")),
+            "explicit": rng.random() < 0.2}
+
+
+def check_overlay(st, oc):
+    """Every environment of an overlay chain lexes by its own options."""
+    ctx = st.ctx
+    chain, srcs, use = oc["chain"], oc["srcs"], oc["use"]
+    envs = [st.Environment(**_opts_kw(chain[0]))]
+    d0 = G.DELIMS[chain[0]["dname"]]
+    if use == "lex":
+        list(envs[0].lex("a " + d0["vs"] + " x " + d0["ve"] + "\n"))
+    elif use == "from_string":
+        envs[0].from_string("a " + d0["vs"] + " 1 " + d0["ve"] + "\n").render()
+    elif use == "parse":
+        envs[0].parse(d0["bs"] + " if x " + d0["be"] + "y" + d0["bs"] + " endif " + d0["be"])
+    ctx.count("overlay_after_base_used" if use != "no" else "overlay_before_base_used")
+    for prev, cur in zip(chain, chain[1:]):
+        kw_prev, kw = _opts_kw(prev), _opts_kw(cur)
+        if not oc["explicit"]:
+            kw = {k: v for k, v in kw.items() if v != kw_prev[k]}
+        envs.append(envs[-1].overlay(**kw))
+    # the overlays first (innermost last), then every parent again
+    order = list(range(1, len(chain))) + list(range(len(chain) - 2, -1, -1))
+    ok = True
+    for i in order:
+        o, env = chain[i], envs[i]
+        diff = sorted(k for k in o if i and o[k] != chain[i - 1][k]) if i else []
+        role = "overlay" if i else "base-after-overlay"
+        when = "after-base-used" if use != "no" else "before-base-used"
+        label = f"{role}({when}):{o['dname']}"
+        extra = {"overlay_case": oc, "member": i, "changed": diff}
+        ctx.count("overlay_lex_checks" if i else "overlay_base_rechecks")
+        if o["line"]:
+            ctx.count("overlay_linestmt_checks")
+            r = check_linestmt(st, srcs[i]["linestmt"], o["keep"], env=env,
+                               label=f"{role}({when}):linestmt", extra=extra)
+        else:
+            r = check_case(st, srcs[i]["skel"], o["dname"], o["tb"], o["ls"], o["keep"],
+                           env=env, label=label, extra=extra)
+        ok = ok and r
+        k = ("overlay", role, when, tuple(diff), o["dname"], o["tb"], o["ls"], o["keep"], o["line"])
+        if k not in st.seen:
+            st.seen.add(k)
+            ctx.dist(k)
+    return ok
 
 
 def mod_products(seq):
@@ -378,6 +513,16 @@ def run(ctx):
         if i == 0 and ctx.shard == 0:
             ctx.sample({"part": "linestmt", "source": src})
 
+    # ---- overlay chains: each member lexes by its own options
+    rng = ctx.rng("overlay")
+    for i in range(260 if quick else 6000):
+        oc = gen_overlay_case(rng)
+        check_overlay(st, oc)
+        if i == 0 and ctx.shard == 0:
+            ctx.sample({"part": "overlay", "chain": oc["chain"], "use": oc["use"]})
+        if not quick and ctx.elapsed() > ctx.budget_s * 0.75:
+            break
+
     # ---- random multi-line sources, all delimiter sets, all settings
     rng = ctx.rng("random")
     dnames = ["default", "default", "angle", "html", "square"]
@@ -399,7 +544,9 @@ def run(ctx):
 
 def replay(ctx, case):
     st = State(ctx)
-    if case.get("kind") == "linestmt":
+    if case.get("overlay_case"):
+        check_overlay(st, case["overlay_case"])
+    elif case.get("kind") == "linestmt":
         check_linestmt(st, case["source"], case.get("keep", False))
     else:
         check_case(st, case["skel"], case["delims"], case["tb"], case["ls"],
